@@ -13,10 +13,12 @@ import (
 	"verifharness/internal/ref"
 )
 
-// argT is the type of a scalar parameter of a fixed program.
+// argT is the type of a parameter of a fixed program.
 type argT struct {
-	Kind string // "uint" | "int" | "bool"
-	Bits int
+	Kind    string // "uint" | "int" | "bool" | "array" (of uint) | "struct" (of uint members)
+	Bits    int    // total width
+	Elem    int    // array: element width (a multiple of 4)
+	Members []int  // struct: member widths
 }
 
 // fixedProg is a small two-party MPCL program with a reference function
@@ -48,14 +50,14 @@ var fixedProgs = []fixedProg{
 		Name: "and1",
 		Src: `package main
 func main(a bool, b bool) (bool, bool) { return a && b, a != b }`,
-		XT: argT{"bool", 1}, YT: argT{"bool", 1}, Outs: []int{1, 1},
+		XT: argT{Kind: "bool", Bits: 1}, YT: argT{Kind: "bool", Bits: 1}, Outs: []int{1, 1},
 		Ref: func(x, y uint64) []uint64 { return []uint64{x & y, x ^ y} },
 	},
 	{
 		Name: "add4",
 		Src: `package main
 func main(a uint4, b uint4) uint4 { return a + b }`,
-		XT: argT{"uint", 4}, YT: argT{"uint", 4}, Outs: []int{4},
+		XT: argT{Kind: "uint", Bits: 4}, YT: argT{Kind: "uint", Bits: 4}, Outs: []int{4},
 		Ref: func(x, y uint64) []uint64 { return []uint64{(x + y) & 15} },
 	},
 	{
@@ -67,7 +69,7 @@ func main(a uint5, b uint3) (uint5, bool) {
 	}
 	return a ^ uint5(b), false
 }`,
-		XT: argT{"uint", 5}, YT: argT{"uint", 3}, Outs: []int{5, 1},
+		XT: argT{Kind: "uint", Bits: 5}, YT: argT{Kind: "uint", Bits: 3}, Outs: []int{5, 1},
 		Ref: func(x, y uint64) []uint64 {
 			if x > y {
 				return []uint64{(x - y) & 31, 1}
@@ -79,14 +81,14 @@ func main(a uint5, b uint3) (uint5, bool) {
 		Name: "mul3",
 		Src: `package main
 func main(a uint3, b uint3) uint6 { return uint6(a) * uint6(b) }`,
-		XT: argT{"uint", 3}, YT: argT{"uint", 3}, Outs: []int{6},
+		XT: argT{Kind: "uint", Bits: 3}, YT: argT{Kind: "uint", Bits: 3}, Outs: []int{6},
 		Ref: func(x, y uint64) []uint64 { return []uint64{(x * y) & 63} },
 	},
 	{
 		Name: "sdiff",
 		Src: `package main
 func main(a int5, b int5) (int5, bool) { return a - b, a < b }`,
-		XT: argT{"int", 5}, YT: argT{"int", 5}, Outs: []int{5, 1},
+		XT: argT{Kind: "int", Bits: 5}, YT: argT{Kind: "int", Bits: 5}, Outs: []int{5, 1},
 		Ref: func(x, y uint64) []uint64 {
 			return []uint64{(x - y) & 31, b2u(sext(x, 5) < sext(y, 5))}
 		},
@@ -97,16 +99,57 @@ func main(a int5, b int5) (int5, bool) { return a - b, a < b }`,
 func main(a uint6, b uint4) (uint6, uint4) {
 	return (a & 0x2d) | (uint6(b) << 1), uint4(a >> 2) & b
 }`,
-		XT: argT{"uint", 6}, YT: argT{"uint", 4}, Outs: []int{6, 4},
+		XT: argT{Kind: "uint", Bits: 6}, YT: argT{Kind: "uint", Bits: 4}, Outs: []int{6, 4},
 		Ref: func(x, y uint64) []uint64 {
 			return []uint64{(x & 0x2d) | ((y << 1) & 63), ((x >> 2) & 15) & y}
 		},
 	},
 }
 
+// Programs for three suspected weaknesses of streaming mode: the evaluator
+// parses its own input with the argument description the garbler sends (array
+// type text, member Bits of a compound argument), and outputs that are another
+// wire XOR a constant (OpReturn wire ids).
+var extraProgs = []fixedProg{
+	{
+		Name: "arrarg",
+		Src: `package main
+func main(a uint4, b [3]uint4) uint4 { return a + b[0] + b[2] }`,
+		XT: argT{Kind: "uint", Bits: 4}, YT: argT{Kind: "array", Bits: 12, Elem: 4}, Outs: []int{4},
+		Ref: func(x, y uint64) []uint64 { return []uint64{(x + (y & 15) + (y >> 8 & 15)) & 15} },
+	},
+	{
+		Name: "structarg",
+		Src: `package main
+type E struct {
+	p uint4
+	q uint3
+	r uint4
+}
+func main(a uint4, b E) (uint4, uint3) { return a + b.p - b.r, b.q }`,
+		XT: argT{Kind: "uint", Bits: 4}, YT: argT{Kind: "struct", Bits: 11, Members: []int{4, 3, 4}},
+		Outs: []int{4, 3},
+		Ref: func(x, y uint64) []uint64 {
+			return []uint64{(x + (y & 15) - (y >> 7 & 15)) & 15, y >> 4 & 7}
+		},
+	},
+	{
+		Name: "xorconst",
+		Src: `package main
+func main(a uint4, b uint4) (uint4, bool) { return a ^ b ^ 0xf, !(a < b) }`,
+		XT: argT{Kind: "uint", Bits: 4}, YT: argT{Kind: "uint", Bits: 4}, Outs: []int{4, 1},
+		Ref: func(x, y uint64) []uint64 { return []uint64{x ^ y ^ 15, b2u(!(x < y))} },
+	},
+}
+
+func init() { fixedProgs = append(fixedProgs, extraProgs...) }
+
 var fixedProgNames = func() []string {
 	var r []string
 	for _, p := range fixedProgs {
+		r = append(r, p.Name)
+	}
+	for _, p := range extraProgs {
 		r = append(r, p.Name)
 	}
 	return r
@@ -238,5 +281,10 @@ func enumSessions() []Session {
 		v.X, v.Y, v.Seed = inv(s.X), inv(s.Y), s.Seed+1000
 		res = append(res, v)
 	}
+	// Streaming sessions for the suspected weaknesses (one variant each).
+	res = append(res,
+		mk("stream", "", "arrarg", "1010", "110001011110", 301),
+		mk("stream", "", "structarg", "0110", "10110111001", 302),
+		mk("stream", "", "xorconst", "1001", "0101", 303))
 	return res
 }
